@@ -28,6 +28,36 @@ fn steer(p: &mut Vec<u8>, rng: &mut Rng) {
     }
 }
 
+/// a hostile sequence of packets on one table PID following the grammar of the section layer: section starts with every
+/// kind of pointer_field (in range, at the end, beyond the payload), declared lengths around every boundary (so that 0..8 or
+/// many bytes stay outstanding), starts with fewer than 3 / 8 bytes in the packet, continuations of any size, payload-less packets
+pub fn psi_grammar(pid: u16, rng: &mut Rng) -> Vec<Vec<u8>> {
+    let mut m = Mux::new(); m.set_cc(pid, rng.below(16) as u8);
+    let tid = if pid == 0 { 0u8 } else { 2 };
+    for _ in 0..rng.range(2, 9) {
+        match rng.below(8) {
+            0 | 1 | 2 => { // a start: `avail` payload bytes, pointer p, then a section header declaring `len`
+                let avail = *rng.pick(&[184usize, 184, 184, 100, 20, 12, 10, 9, 5, 4, 3, 2, 1]);
+                let p = match rng.below(6) { 0 => avail - 1, 1 => avail, 2 => avail + 3, 3 => rng.below(avail as u64) as usize, _ => 0 };
+                let room = avail.saturating_sub(1 + p);                       // section bytes that fit this packet
+                let len = match rng.below(8) { 0 => room.saturating_sub(3), 1 => room.saturating_sub(3) + 1 + rng.below(8) as usize, 2 => room + rng.below(200) as usize, 3 => 1021, 4 => 1022, 5 => rng.below(13) as usize, 6 => 4095, _ => rng.below(1022) as usize };
+                let mut pl = vec![p as u8];
+                let mut sec = vec![tid, (if rng.chance(7, 8) { 0xb0 } else { 0x30 }) | ((len >> 8) as u8 & 0x0f), len as u8, rng.byte(), rng.byte(), 0xc1 | (rng.below(32) as u8) << 1, 0, 0];
+                sec.extend(rng.bytes(len.min(1100)));
+                if rng.chance(1, 2) && sec.len() >= 12 && sec.len() == len + 3 { let n = sec.len(); let c = crc32_mpeg(&sec[..n - 4]); sec[n - 4..].copy_from_slice(&c.to_be_bytes()); }
+                let filler = rng.bytes(p.min(183)); pl.extend(filler); pl.extend(sec);
+                pl.truncate(avail);
+                while pl.len() < avail { pl.push(0xff); }
+                m.data_packet(pid, true, &pl, rng);
+            }
+            3 | 4 | 5 => { let n = *rng.pick(&[1usize, 2, 3, 4, 5, 7, 8, 9, 100, 183, 184, 184]); let pl = rng.bytes(n); m.data_packet(pid, false, &pl, rng); }
+            6 => { m.af_only(pid, None, rng); }
+            _ => { let pl = vec![0xffu8; 184]; m.data_packet(pid, rng.chance(1, 2), &pl, rng); }
+        }
+    }
+    m.pkts
+}
+
 pub fn gen(tier: &str, seed: u64, emit: &mut dyn FnMut(String)) {
     let mut rng = Rng::new(seed ^ 0xC01);
     let big = tier == "thorough";
@@ -36,7 +66,7 @@ pub fn gen(tier: &str, seed: u64, emit: &mut dyn FnMut(String)) {
         let (m, _t, progs) = valid_stream(&mut rng, 1 + (i % 3) as usize, 1 + (i % 3) as usize, true);
         let mut pk = m.pkts.clone();
         // hostile edits
-        match i % 5 {
+        match i % 6 {
             0 => {}
             1 => { for _ in 0..rng.range(1, 12) { let k = rng.below(pk.len() as u64) as usize; steer(&mut pk[k], &mut rng); } }
             2 => { for _ in 0..rng.range(1, 6) { let k = rng.below(pk.len() as u64) as usize;
@@ -49,6 +79,11 @@ pub fn gen(tier: &str, seed: u64, emit: &mut dyn FnMut(String)) {
                        if rng.chance(1, 2) && s.len() >= 12 { let n = s.len(); let c = crc32_mpeg(&s[..n - 4]); s[n - 4..].copy_from_slice(&c.to_be_bytes()); }
                        let mut mm = Mux::new(); mm.set_cc(pid, rng.below(16) as u8); mm.psi(pid, &s, if rng.chance(1, 4) { rng.range(1, 30) as usize } else { 0 }, rng.below(3), &mut rng);
                        let at = rng.below(pk.len() as u64 + 1) as usize; for (j, p) in mm.pkts.into_iter().enumerate() { pk.insert((at + j).min(pk.len()), p); } } }
+            4 => { // grammar-directed hostile sequences on the table PIDs, placed after the tables that create their handlers
+                   let mut pids: Vec<u16> = vec![0]; for p in progs.iter() { pids.push(p.pmt_pid); }
+                   for _ in 0..rng.range(1, 4) { let pid = *rng.pick(&pids); let g = psi_grammar(pid, &mut rng);
+                       let at = rng.range((pk.len() as u64).min(progs.len() as u64 + 1), pk.len() as u64) as usize;
+                       for (j, p) in g.into_iter().enumerate() { pk.insert((at + j).min(pk.len()), p); } } }
             _ => { let k = rng.range(1, 40) as usize; pk = (0..k).map(|_| { let mut p = rng.bytes(188); if rng.chance(3, 4) { p[0] = 0x47; } if rng.chance(1, 2) { p[1] &= 0x60; p[2] = rng.below(4) as u8; } p }).collect(); }
         }
         let mut bytes: Vec<u8> = pk.concat();
